@@ -46,6 +46,10 @@ CHECKS['C10'] = ('E1', 'model_checking',
     'Explicit-state BFS over histories of addReader/addWriter/removeReader/removeWriter/discard and peer actions (write, drain, fill the send buffer, unfill, peer close, discard+close+reopen on the same fd number, close-without-discard + reopen + register, close-without-discard with the number taken by an unrelated descriptor) on 1-2 real AF_UNIX socket pairs; every history is replayed on fresh sockets under Select, Poll and EPoll, two zero-time-out loop iterations after each operation. Judged on every state: an event only for a descriptor registered for that role and ready for it, a ready registered descriptor gets exactly one event per iteration, on the channel of the registering component, nothing ever names a discarded/closed socket object, and the three pollers fire the same event set.',
     'Trusted: Linux AF_UNIX readiness measured with select/poll by the harness; set model of registrations; events for hung-up descriptors judged only for naming registered live objects.',
     'explicit-state BFS over operation histories on real sockets, cross-checked between the three poller implementations', 'DESIGN.md 6/C10')
+CHECKS['C11'] = ('E3', 'fault_enumeration',
+    'Real TCPServer connection, UNIXClient, TCPClient and File components on a real poller, with the OS write call scripted: every send()/os.write() is a choice point {accept all, 1 byte, n-1 bytes, EAGAIN, EINTR, ENOBUFS, EPIPE, ECONNRESET}; for every program (1-3 write events with payloads of 0/1/3 distinct bytes, close request at any position or none, all events at once or one per loop iteration) every answer script with <=k non-default answers (quick 2, thorough 3; fatal answers sticky) is executed. On every execution: the accepted bytes are always a prefix of the payload concatenation, at quiescence nothing written before the close request (or nothing at all) is missing, close/shutdown happens only after that and only if requested, no write call after close, a fatal answer is signalled by an error/disconnect event.',
+    'Trusted: scripted socket/file doubles (subclasses around real descriptors passed through public constructors); EAGAIN==EWOULDBLOCK on Linux; ENOBUFS not offered to File; multi-megabyte payloads are not in the alphabet.',
+    'deviation-bounded exhaustive fault enumeration of send() outcomes against the real endpoint components', 'DESIGN.md 3/E3, 6/C11')
 NOT_YET = {}
 def main():
     props = [json.loads(l) for l in open(os.path.join(HERE, 'properties.jsonl'))]
